@@ -34,7 +34,9 @@ def jobs(tier):
 
 def make_inputs(job):
     # the fault placement is chosen while the scenario runs (one free choice per socket call); it is reported in the observation
-    return dict(err=job["err"], nreq=job["nreq"], k=job["k"], P=job["P"], body=(2, 3000)[E().choose(2, "body")])
+    eng = E()
+    return dict(err=job["err"], nreq=job["nreq"], k=job["k"], P=job["P"], body=(2, 3000)[eng.choose(2, "body")],
+                wm=(16777216, 10)[eng.choose(2, "wm")], logsock=bool(eng.choose(2, "logsock")), stall_first=bool(eng.choose(2, "stall")))
 
 
 def scenario(ns, inp):
@@ -44,8 +46,11 @@ def scenario(ns, inp):
 
     def app(environ, start_response):
         calls.append(environ["PATH_INFO"])
-        start_response("200 OK", [("Content-Length", str(inp["body"]))])
-        return [b"x" * inp["body"]]
+        write = start_response("200 OK", [("Content-Length", str(inp["body"]))])
+        half = inp["body"] // 2
+        write(b"x" * half)
+        write(b"x" * (inp["body"] - half))
+        return []
 
     def fault_hook(op, obj):
         if inp["err"] is None or budget[0] <= 0:
@@ -60,11 +65,23 @@ def scenario(ns, inp):
             return inp["err"]
         return None
 
-    sysm = hsys.System(ns, app, adj_kw=dict(threads=1), P=inp["P"], yield_funcs=set(), fault_hook=fault_hook)
+    sysm = hsys.System(ns, app, adj_kw=dict(threads=1, outbuf_high_watermark=inp.get("wm", 16777216), log_socket_errors=inp.get("logsock", True)),
+                       P=inp["P"], yield_funcs=set(), fault_hook=fault_hook)
     try:
         data = b"".join(b"GET /a%d HTTP/1.1\r\n\r\n" % (i + 1) for i in range(inp["nreq"]))
         a = sysm.connect([data], name="victim")
         b = sysm.connect([b"GET /b HTTP/1.1\r\n\r\n"], addr=("10.0.0.2", 6000), name="bystander")
+        if inp.get("stall_first"):
+            # the victim's first send() would block (its send buffer is full), so output is pending when the fault strikes
+            orig0 = a.send
+            st0 = [True]
+
+            def send0(d):
+                if st0[0]:
+                    st0[0] = False
+                    a.accept = [0]
+                return orig0(d)
+            a.send = send0
         if inp["err"] is None:
             # the peer vanishes at a symbolic point: before anything is read, or once the first response bytes were sent
             when = E().choose_free(2)
@@ -103,12 +120,11 @@ def oracle(inp, obs):
     out.append(("the other connection is served normally", len(finals) == 1 and rest == b"" and finals[0].endswith(b"x" * inp["body"]) and "/b" in obs["calls"]))
     out.append(("a connection is torn down at most once", obs["a_closed"] <= 1))
     out.append(("sockets are closed by the I/O thread only, never by a worker (closed by %r)" % (obs["a_closed_by"],), all(w == "io" for w in obs["a_closed_by"])))
-    if obs["placed"] and obs["placed"][0][0] not in ("accept", "setsockopt") and obs["a_accepted"]:
+    if obs["placed"] and obs["placed"][0][0] in ("recv", "send", "eof") and obs["a_accepted"]:
         # (a socket that never became a channel - error in accept or while applying socket_options - is dropped by the
         # server and released when the socket object is collected; the simulated socket cannot observe that)
-        faulted_hard = True
-        out.append(("a faulted connection is torn down and its descriptor released (faults %r)" % (obs["placed"],),
-                    obs["a_closed"] == 1 or (obs["a_wire_len"] > 0 and obs["placed"][0][0] == "send" and inp["err"] in (errno.EINVAL, errno.EIO) and False) or obs["a_closed"] == 1))
+        out.append(("a connection whose recv / send failed (or whose peer vanished) is torn down exactly once and its descriptor released (faults %r)" % (obs["placed"],),
+                    obs["a_closed"] == 1))
     return out
 
 
